@@ -50,7 +50,8 @@ def run(ctx):
         "store; worker count 0 / negative and Start twice are not exercised (the unchanged code panics)",
     ]
     return ctx.finish(
-        rule="life-cycle orders (late Start, Stop with accepted calls, Stop before/after Start, racing Start/Stop in "
+        rule="dynamic kinds of rows / data / injected errors (sentinels of mux and context, wrapped), run-length "
+             "encoded long runs around 2^8 and 2^16, 257-call queues, simultaneous-exit batches; life-cycle orders (late Start, Stop with accepted calls, Stop before/after Start, racing Start/Stop in "
              "cold-start rounds behind a spin barrier), configuration extremes (depth 0/negative/1, LRU capacity 0, "
              "row sizes 0..3, up to 300 workers), pointer rows rendered late, nested reads from callbacks; plans = TLC simulation of MuxCache.tla (3 keys, 1..3 workers, map/LRU, 16 operations with "
              "failure / gate patterns and cancellations of outstanding calls incl. a gate before the handler's cache Set/Delete, distinct by content) + "
